@@ -176,4 +176,10 @@ def run(prog, rep):
                         "no diagnostic %s is constructed %s%s: a schema that breaks only `%s` validates" % (
                             "/".join(variants), where, (" (only constructed in %s)" % ", ".join(other)) if other else "", rule), None)
     rule_kindgate(prog, rep)
+    # the input-object circular-reference rule follows exactly the non-null *named* references
+    # (a list or a nullable link breaks the cycle): too few links accept invalid schemas, too many
+    # reject valid ones.  Decided by C15.CYCLE, shared here because both directions are verdicts of
+    # this property.
+    from .C15 import rule_cycle
+    rule_cycle(prog, rep)
     rep.note("presence of a handler per rule is a necessary condition only; agreement of verdicts with graphql-js is not decided")
